@@ -199,6 +199,11 @@ def retryStep (fl : FnFlags) (s : SPos) (retry : Option (List Nat × SPos)) :
       else if disallow fl skip then .inl 1
       else .inr (rp, skip.adv, some (rp, skip.adv))
 
+/-- is the `*` directly followed by a period written in the pattern — plain, or escaped with `\\`
+    unless FNM_NOESCAPE (repair F41: the escaped form was overlooked) -/
+def dotNext (fl : FnFlags) (p1 : List Nat) : Bool :=
+  p1.head? == some cDot || (p1.head? == some cBSl && !fl.noescape && (p1.drop 1).head? == some cDot)
+
 /-- `wfnmatch` -/
 def wfn (fl : FnFlags) : (fuel : Nat) → (p : List Nat) → (s : SPos) → (retry : Option (List Nat × SPos)) → Nat
   | 0, _, _, _ => 2                                   -- out of fuel (never with the fuel of `wfnmatch`)
@@ -218,7 +223,7 @@ def wfn (fl : FnFlags) : (fuel : Nat) → (p : List Nat) → (s : SPos) → (ret
     | [] => lit 0 []
     | pc :: p1 =>
       if pc = cStar then
-        if p1.head? == some cDot && disallow fl s then 1
+        if dotNext fl p1 && disallow fl s then 1
         else wfn fl f p1 s (some (p1, s))
       else if pc = cQuest then
         if disallow fl s then doRetry () else wfn fl f p1 s.adv retry
@@ -293,7 +298,7 @@ def tokenize (fl : FnFlags) : (fuel : Nat) → List Nat → List Tok
   | 0, _ => [.never]
   | _ + 1, [] => []
   | f + 1, pc :: p1 =>
-    if pc = cStar then .star (p1.head? == some cDot) :: tokenize fl f p1
+    if pc = cStar then .star (dotNext fl p1) :: tokenize fl f p1
     else if pc = cQuest then .any :: tokenize fl f p1
     else if pc = cLB then
       let neg := p1.head? == some cBang || p1.head? == some cCaret
